@@ -125,6 +125,7 @@ structure Env where
   goMods : Dict GoImpl                 -- `gRuntime.ModuleImpls`
   dirs : List (Dict Src)               -- sys.path: per directory, module name ↦ file
   ord : List String → List String := id   -- iteration order of a Go map (any permutation)
+  lab : Nat → String := fun i => s!"d{i}"  -- name of the i-th search directory (what `__file__` shows)
 
 def St.emit (st : St) (e : Ev) : St := { st with trace := st.trace ++ [e] }
 
@@ -143,12 +144,12 @@ def St.setGlobal (st : St) (id : Nat) (k : String) (v : Val) : St :=
 abbrev ImpFn := String → St → St × Except Fail Nat
 
 /-- `resolveRunPath` over sys.path: the first directory that has `<name>.py`; result = (`__file__`, file) -/
-def resolve : List (Dict Src) → Nat → String → Option (String × Src)
+def resolve (lab : Nat → String) : List (Dict Src) → Nat → String → Option (String × Src)
   | [], _, _ => .none
   | d :: ds, i, name =>
     match d.get name with
-    | some s => some (s!"d{i}/{name}.py", s)
-    | none => resolve ds (i + 1) name
+    | some s => some (s!"{lab i}/{name}.py", s)
+    | none => resolve lab ds (i + 1) name
 
 /-- IMPORT_FROM for each alias, then STORE_NAME -/
 def fromItems (src : Nat) (cur : Nat) : List (String × String) → St → St × Option Fail
@@ -266,7 +267,7 @@ def importModule (env : Env) : Nat → ImpFn
         match env.goMods.get name with
         | some impl => loadModule env (importModule env fuel) name (initGlobals name .none impl) impl.body st
         | none =>
-          match resolve env.dirs 0 name with
+          match resolve env.lab env.dirs 0 name with
           | none => (st, .error (.raise .importError))          -- FileNotFoundError → ImportError
           | some (_, .bad) => (st, .error (.raise .syntaxError))
           | some (file, .code body) =>
@@ -349,7 +350,7 @@ def importModuleO (o : Orders) (env : Env) : Nat → ImpFn
         match env.goMods.get name with
         | some impl => loadO o.importGo env (importModuleO o env fuel) name (initGlobals name .none impl) impl.body st
         | none =>
-          match resolve env.dirs 0 name with
+          match resolve env.lab env.dirs 0 name with
           | none => (st, .error (.raise .importError))
           | some (_, .bad) => (st, .error (.raise .syntaxError))
           | some (file, .code body) =>
